@@ -35,7 +35,12 @@ func WithNodeSpacing(spacing float64) Option {
 func WithNodeSize(sizes map[string]graph.Size) Option {
 	return func(o *options) {
 		o.params.NodeSizeFunc = func(n *ig.Node) {
-			n.Size = sizes[n.ID]
+			// nodes not found in the map keep the size set by WithNodeFixedSize, if any;
+			// only width and height are taken: the coordinates are computed by the layout
+			if size, ok := sizes[n.ID]; ok {
+				n.W = size.W
+				n.H = size.H
+			}
 		}
 	}
 }
